@@ -107,6 +107,22 @@ def generate():
     for shape in SHAPES:
         fs = plain_fields(shape, 2)
         yield ("type name spellings (raw identifier)", [item("struct", "S", ["#[educe(%s)]" % a.replace("X", "r#Match")], [("", shape, [], fs)]) for a in custom + ['Debug(rename("X"))']])
+    # ---- raw string literals wherever a string is taken (the value, not the token, is what counts)
+    for label, mk, shape in field_hosts(["#[educe(Debug)]"]):
+        if shape == "named":
+            yield ("string literal kinds", [mk("#[educe(%s)]" % a, 1) for a in ['Debug(name = "x")', 'Debug(name = r"x")', 'Debug(name = r#"x"#)', 'Debug(rename(r"x"))', 'Debug = r"x"', "Debug = x"]])
+    for t in ["PartialEq", "Hash", "Ord", "Clone", "Debug"]:
+        for label, mk, shape in field_hosts(["#[educe(%s)]" % t]):
+            yield ("string literal kinds", [mk("#[educe(%s)]" % a, 1) for a in ['%s(method = "a::m")' % t, '%s(method = r"a::m")' % t, '%s(method(r#"a::m"#))' % t, "%s(method(a::m))" % t,
+                                                                               '%s(method = " a :: m ")' % t]])
+    for t in ["Ord", "PartialOrd"]:
+        for label, mk, shape in field_hosts(["#[educe(%s)]" % t]):
+            yield ("string literal kinds", [mk("#[educe(%s)]" % a, 2) for a in ['%s(rank = "-3")' % t, '%s(rank = r"-3")' % t, '%s(rank(r#"-3"#))' % t, "%s(rank = -3)" % t]])
+    for t in ["Debug", "Clone", "PartialEq", "Hash", "Ord", "Default"]:
+        yield ("string literal kinds", [item("struct", "S", ["#[educe(%s(%s))]" % (t, b)], [("", "tuple", [], [([], None, "T"), ([], None, "U")])], "<T, U>")
+                                        for b in ['bound = "T: Copy"', 'bound = r"T: Copy"', 'bound(r#"T: Copy"#)', "bound(T: Copy)"]])
+    yield ("string literal kinds", [item("struct", "S", ["#[educe(%s)]" % a], [("", "named", [], plain_fields("named", 2))])
+                                    for a in ['Debug(name = "X")', 'Debug(name = r"X")', 'Debug = r#"X"#', "Debug = X", 'Debug(rename(r"X"))']])
     # ---- bound
     for t in ["Debug", "Clone", "PartialEq", "Hash", "Ord", "PartialOrd", "Default", "Copy", "Eq"]:
         groups = [["bound(T: Copy)", 'bound = "T: Copy"', 'bound("T: Copy")', "bound(T: Copy,)", 'bound = "T: Copy,"', 'bound("T: Copy,")', 'bound = " T : Copy "'],
